@@ -5,12 +5,14 @@ mod ag;
 mod refs;
 mod lrx;
 mod c01;
+mod c03;
+mod c16;
 mod c19;
 
 use frame::{Check, Tier};
 
 fn registry() -> Vec<Box<dyn Check>> {
-    vec![Box::new(c01::C01), Box::new(c19::C19)]
+    vec![Box::new(c01::C01), Box::new(c03::C03), Box::new(c16::C16), Box::new(c19::C19)]
 }
 
 fn find(id: &str) -> Box<dyn Check> {
